@@ -297,7 +297,7 @@ func (s *scenario) resign(token, proof bool) {
 var alterations = []string{
 	"ok", "ok", "ok",
 	"token-sig-flip", "token-sig-otherkey", "token-sig-empty", "token-sig-short", "token-version-empty", "token-version-other",
-	"token-apppub-other", "token-apppub-other-resigned", "token-apppub-upper", "token-apppub-bad", "token-apppub-empty",
+	"token-apppub-other", "token-apppub-other-resigned", "token-apppub-upper", "token-apppub-mixed", "token-apppub-bad", "token-apppub-empty",
 	"token-clientpub-other", "token-clientpub-other-resigned", "token-clientpub-bad", "token-clientpub-empty",
 	"client-sig-flip", "client-sig-otherkey", "client-sig-empty", "client-sig-nonhex", "client-sig-appkey",
 	"payload-changed", "payload-empty", "payload-path-only", "reqhash-flip", "reqhash-flip-resigned", "reqhash-short-resigned", "reqhash-nonhex-resigned", "meta-changed",
@@ -345,6 +345,13 @@ func (s *scenario) alter(r *gen.R, a string) {
 		s.resign(false, true)
 	case "token-apppub-upper":
 		p.Token.ApplicationPublicKey = strings.ToUpper(p.Token.ApplicationPublicKey)
+		s.resign(true, true)
+	case "token-apppub-mixed":
+		if sp := respell(p.Token.ApplicationPublicKey, r.U64()|1<<uint(r.Intn(8))); sp != p.Token.ApplicationPublicKey {
+			p.Token.ApplicationPublicKey = sp
+		} else {
+			p.Token.ApplicationPublicKey = strings.ToUpper(sp)
+		}
 		s.resign(true, true)
 	case "token-apppub-bad":
 		p.Token.ApplicationPublicKey = "zz" + p.Token.ApplicationPublicKey[2:]
@@ -816,6 +823,21 @@ func (s *scenario) describe() string {
 		}
 	}()
 	add("cached", cached)
+	// is the servicer in the session of the application's key in its canonical spelling (only
+	// computed when the token spells the key differently)
+	canonIn := "-"
+	if prevOK && appFound {
+		if a := addrOfPub(p.Token.ApplicationPublicKey); a != "x" {
+			if canon := e.worlds[s.sbh].apps[a].PublicKey.RawString(); canon != p.Token.ApplicationPublicKey {
+				ch := header
+				ch.ApplicationPubKey = canon
+				if in, ok := s.sessionMembers(ch, int(e.worlds[s.sbh].count)); ok {
+					canonIn = fmt.Sprint(in[s.node.GetAddress().String()])
+				}
+			}
+		}
+	}
+	add("canonIn", canonIn)
 	return strings.Join(kv, " ")
 }
 
@@ -1186,6 +1208,124 @@ func (s *scenario) addressTo(k crypto.Ed25519PrivateKey, sessStore, evStore *pc.
 	s.resign(false, true)
 }
 
+// sessionMembers: the node set NewSession selects for a header (with the scenario's stubs).
+func (s *scenario) sessionMembers(h pc.SessionHeader, count int) (in map[string]bool, ok bool) {
+	defer func() {
+		if recover() != nil {
+			ok = false
+		}
+	}()
+	sctx := mkCtx(s.sbh)
+	bh, err := sctx.BlockHash(pc.ModuleCdc, s.sbh)
+	if err != nil {
+		return nil, false
+	}
+	ss, er := pc.NewSession(sctx, hctx{mkCtx(s.e.height), s.e}, posStub{s.e}, h, hex.EncodeToString(bh), count)
+	if er != nil {
+		return nil, false
+	}
+	in = map[string]bool{}
+	for _, n := range ss.SessionNodes {
+		in[n.String()] = true
+	}
+	return in, true
+}
+
+// respell: bit i of mask decides whether the i-th hex LETTER of the key is upper case; every
+// spelling decodes to the same key bytes.
+func respell(hexKey string, mask uint64) string {
+	out := []byte(strings.ToLower(hexKey))
+	bit := uint(0)
+	for i, c := range out {
+		if c >= 'a' && c <= 'f' && bit < 64 {
+			if mask&(1<<bit) != 0 {
+				out[i] = c - 'a' + 'A'
+			}
+			bit++
+		}
+	}
+	return string(out)
+}
+
+// grind: a spelling of the token's application key (token and proof re-signed by the legitimate
+// keys) whose derived session contains / does not contain the addressed servicer.
+func (s *scenario) grind(r *gen.R, wantIn bool) bool {
+	canon := strings.ToLower(s.relay.Proof.Token.ApplicationPublicKey)
+	me := s.node.GetAddress().String()
+	start := r.U64()
+	for i := uint64(0); i < 64; i++ {
+		sp := respell(canon, start+i*0x9e3779b97f4a7c15)
+		if sp == canon {
+			continue
+		}
+		h := s.relay.Proof.SessionHeader()
+		h.ApplicationPubKey = sp
+		in, ok := s.sessionMembers(h, 3)
+		if !ok || in[me] != wantIn {
+			continue
+		}
+		s.relay.Proof.Token.ApplicationPublicKey = sp
+		s.resign(true, true)
+		return true
+	}
+	return false
+}
+
+// spellingSeqs: the application key in the token re-spelled (upper / mixed case hex, same key
+// bytes, signed by the application and the client).  The session is a function of the key TEXT,
+// so a spelling can be ground until a servicer outside the application's session is "in session".
+func spellingSeqs(r *gen.R, url string, n int) {
+	hrInit()
+	for i := 0; i < n; i++ {
+		s := base(r)
+		member, outsider, ok := s.seqWorld(r)
+		if !ok {
+			continue
+		}
+		sess, ev := newStore(), newStore()
+		switch i % 5 {
+		case 0: // outsider of the canonical session, spelling ground until it is in the spelled session
+			s.addressTo(outsider, sess, ev)
+			if s.grind(r, true) {
+				s.label = "spell-ground-outsider"
+				s.run()
+				s.relay.Proof.Entropy++
+				s.resign(false, true)
+				s.label = "spell-ground-outsider-again"
+				s.run()
+			}
+		case 1: // the same through the keeper
+			s.addressTo(outsider, sess, ev)
+			if s.grind(r, true) {
+				nodes := map[string]*pc.PocketNode{s.node.GetAddress().String(): s.node}
+				s.label = "hspell-ground-outsider"
+				s.handleOne(url, 0, false, nodes, "")
+			}
+		case 2: // a member of the canonical session that is also in the spelled session
+			s.addressTo(member, sess, ev)
+			if s.grind(r, true) {
+				s.label = "spell-member-stays-in"
+				s.run()
+			}
+		case 3: // a member of the canonical session that the spelling puts out
+			s.addressTo(member, sess, ev)
+			if s.grind(r, false) {
+				s.label = "spell-member-put-out"
+				s.run()
+			}
+		default: // canonical first (served, session cached), then a ground spelling for the outsider on the same cache
+			s.addressTo(member, sess, ev)
+			s.label = "spell-canonical-first"
+			s.run()
+			s.addressTo(outsider, sess, newStore())
+			if s.grind(r, true) {
+				s.label = "spell-then-ground-outsider"
+				s.run()
+			}
+		}
+	}
+}
+
 // validateSeqs: sequences through the real Relay.Validate on ONE servicer's session cache.
 func validateSeqs(r *gen.R, n int) {
 	for i := 0; i < n; i++ {
@@ -1301,5 +1441,6 @@ func main() {
 	validateSeqs(r, 6+*n/40)
 	handleRelayStream(r, srv.URL, *n/4)
 	handleSeqs(r, srv.URL, 4+*n/80)
+	spellingSeqs(r, srv.URL, 10+*n/50)
 	t.Close(nil)
 }
